@@ -30,7 +30,9 @@ func (p Address) WriteTo(w io.Writer) (n int64, err error) {
 	var buf bytes.Buffer
 	buf.WriteByte(p.TON)
 	buf.WriteByte(p.NPI)
-	writeCString(&buf, p.No)
+	if err = writeCString(&buf, p.No); err != nil {
+		return
+	}
 	return buf.WriteTo(w)
 }
 
@@ -89,11 +91,15 @@ func (p DestinationAddresses) WriteTo(w io.Writer) (n int64, err error) {
 	buf.WriteByte(byte(length))
 	for _, address := range p.Addresses {
 		buf.WriteByte(1)
-		_, _ = address.WriteTo(&buf)
+		if _, err = address.WriteTo(&buf); err != nil {
+			return
+		}
 	}
 	for _, distribution := range p.DistributionList {
 		buf.WriteByte(2)
-		writeCString(&buf, distribution)
+		if err = writeCString(&buf, distribution); err != nil {
+			return
+		}
 	}
 	return buf.WriteTo(w)
 }
@@ -141,7 +147,9 @@ func (p UnsuccessfulRecords) WriteTo(w io.Writer) (n int64, err error) {
 	var buf bytes.Buffer
 	buf.WriteByte(byte(len(p)))
 	for _, item := range p {
-		_, _ = item.DestAddr.WriteTo(&buf)
+		if _, err = item.DestAddr.WriteTo(&buf); err != nil {
+			return
+		}
 		_ = binary.Write(&buf, binary.BigEndian, item.ErrorStatusCode)
 	}
 	return buf.WriteTo(w)
